@@ -595,6 +595,7 @@ func c18Run(w *core.W) {
 
 	// program-level twin: every order of three variable-introducing constructs inside one function, every
 	// variable written with its own tag and all of them read back at the end (slot allocation of the rewriter)
+	w.NoCur = false // the program families run the VM, which can take the process down: record the current item
 	w.Family("variable-slots-program")
 	decls := []struct{ name, src string }{
 		{"assign-new", "@ = \"t@#\"\n  r = r + [@, p, q]"}, {"assign-param", "p = \"tp#\"\n  r = r + [p, q]"},
@@ -620,7 +621,7 @@ func c18Run(w *core.W) {
 				}
 				vars := []string{"r", "p", "q"}
 				prog := []string{"z = \"gz\"", "f = (p, q) -> {\n" + body.String() + "  [" + strings.Join(vars, ", ") + "]\n}", "f(\"ap\", \"aq\")", "z"}
-				key := strings.Join(prog, "\n")
+				key := keyOf(prog)
 				if !w.Mine(key) {
 					continue
 				}
@@ -639,12 +640,14 @@ func c18Run(w *core.W) {
 			"mkg = () -> {\n  k = \"ka\"\n  yield () -> k\n  k = \"kb\"\n  yield () -> k\n}",
 			"relay = () -> for c <- mkg() yield c",
 			"relayb = () -> for c <- relay() yield c",
+			"relayr = () -> for c <- mkg() {\n  yield c\n  return 0\n}", // a generator that leaves its own loop by return
 			"first = (g) -> for c <- g() return c",
 			"last = (g) -> {\n  r = 0\n  for c <- g() r = c\n  r\n}",
 			"evens = (m) -> for n <- fromto(0, m) if n % 2 == 0 yield n",
 			"lsum = (m) -> {\n  t = 0\n  for i <- fromto(0, m) t = t + i\n  t\n}",
 		}
 		churns := []string{
+			"for i, j, k <- evens(6), evens(8), fromto(0, 3) s = s + i + j + k",
 			"for i <- fromto(0, 3) s = s + i",
 			"for i, j <- fromto(0, 3), elems(\"abc\") s = s + i",
 			"for i, j <- evens(6), evens(8) s = s + i + j",
@@ -653,7 +656,7 @@ func c18Run(w *core.W) {
 			"for c <- relayb() s = s + 1",
 		}
 		for _, pick := range []string{"first", "last"} {
-			for _, src := range []string{"mkg", "relay", "relayb"} {
+			for _, src := range []string{"mkg", "relay", "relayb", "relayr"} {
 				for _, ch := range churns {
 					for _, twice := range []bool{false, true} {
 						body := "  h = " + pick + "(" + src + ")\n  before = h()\n  s = 0\n  " + ch + "\n"
@@ -663,7 +666,7 @@ func c18Run(w *core.W) {
 							body += "  [before, h(), s]\n"
 						}
 						prog := append(append([]string{}, pre...), "f = () -> {\n"+body+"}", "f()", "[f(), f()]", "{\n"+body+"}")
-						if !w.Mine(strings.Join(prog, "\n")) {
+						if !w.Mine(keyOf(prog)) {
 							continue
 						}
 						w.NonTrivial()
@@ -671,6 +674,45 @@ func c18Run(w *core.W) {
 							w.Fail(payloadOf(prog), "program:"+sig, detail)
 						}
 					}
+				}
+			}
+		}
+	}
+	// a variable of an outer function is not visible two levels in (the name is then a global); and a captured
+	// variable updated after the stack was reallocated, in a session whose earlier statement failed inside calls
+	w.Family("variables-across-levels-and-failures")
+	for _, prog := range [][]string{
+		{"x = \"gx\"", "f = (x, pad) -> {\n  (y) -> {\n    (z) -> [x, y, z]\n  }\n}", "a = f(\"ax\", \"ap\")", "b = a(\"ay\")", "b(\"az\")"},
+		{"x = \"gx\"", "w = \"gw\"", "f = (pad, x) -> {\n  w = \"fw\"\n  (y) -> {\n    v = \"mv\"\n    (z) -> [x, w, v, z]\n  }\n}", "a = f(\"ap\", \"ax\")", "b = a(\"ay\")", "b(\"az\")"},
+		{"x = \"gx\"", "f = (x) -> () -> () -> () -> x", "a = f(\"ax\")", "b = a()", "c = b()", "c()"},
+	} {
+		if w.Mine(keyOf(prog)) {
+			w.NonTrivial()
+			if sig, detail := sessExec(sess.Options{})(payloadOf(prog)); sig != "" {
+				w.Fail(payloadOf(prog), "program:"+sig, detail)
+			}
+		}
+	}
+	for _, failDepth := range []int{0, 1, 3, 60} {
+		for _, locals := range []string{"", "  la = n\n  lb = la\n", "  la = n\n  lb = la\n  lc = lb\n  ld = lc\n"} {
+			for _, depth := range []int{30, 60, 200} {
+				prog := []string{
+					"boom = (n) -> if n <= 0 {\n  [1][5]\n} else boom(n - 1) + 1",
+					"walk = (n) -> {\n" + locals + "  if n <= 0 0 else walk(n - 1) + 1\n}",
+					"f = (a, d) -> {\n  x = a\n  g = () -> x\n  t = walk(d)\n  x = x + 1\n  [g(), x]\n}",
+				}
+				if failDepth > 0 {
+					prog = append(prog, fmt.Sprintf("boom(%d)", failDepth))
+				} else {
+					prog = append(prog, "[1][5]")
+				}
+				prog = append(prog, fmt.Sprintf("f(20, %d)", depth), fmt.Sprintf("f(20, %d)", depth+100))
+				if !w.Mine(keyOf(prog)) {
+					continue
+				}
+				w.NonTrivial()
+				if sig, detail := sessExec(sess.Options{})(payloadOf(prog)); sig != "" {
+					w.Fail(payloadOf(prog), "program:"+sig, detail)
 				}
 			}
 		}
